@@ -82,6 +82,10 @@ def has_cplex():
 def make_algorithm(name):
     """instantiate an algorithm configuration by name"""
     A = ck.algorithms
+    if name.startswith("enum:"):
+        # the documented way to obtain an algorithm from the Algorithm enumeration
+        from corankco.algorithms import get_algorithm, Algorithm
+        return get_algorithm(Algorithm[name[5:]])
     if name == "Borda":
         return ck.BordaCount()
     if name == "BordaBucket":
@@ -149,8 +153,10 @@ BASE_CONFIGS = ["Borda", "BordaBucket", "Copeland", "KwikSort", "PickAPerm", "Bi
                 "ParCons", "ParCons(BioConsert;0)", "ParCons(KwikSort;2)", "ParCons(Copeland;2)", "ParCons(Borda;0)",
                 "ParCons(BioCo;2)", "Pulp", "Exact", "ExactNoOpt", "BioConsert[Pulp]"]
 CPLEX_CONFIGS = ["Cplex", "CplexNoOpt", "CplexOptim1"]
+ENUM_CONFIGS = ["enum:EXACT", "enum:PARCONS", "enum:BIOCONSERT", "enum:BIOCO", "enum:KWIKSORTRANDOM", "enum:PICKAPERM",
+                "enum:BORDACOUNT", "enum:COPELANDMETHOD"]
 EXACT_CONFIGS = {"Pulp", "Exact", "ExactNoOpt", "Cplex", "CplexNoOpt", "CplexOptim1"}
 
 
 def is_random_config(name):
-    return "KwikSort" in name
+    return "KwikSort" in name or "KWIKSORT" in name
